@@ -39,4 +39,6 @@ package ante
 //@ func checkWrkChainMaxSlots(ctx, tx, wck) (err)
 //@   props C06 C08
 //@   requires wrkParamsSet(wrk_store)
+//@   nopanic
 //@   pure
+//@   loop 0: invariant 0 - 1 <= rangeindex && rangeindex < len(msgs)
